@@ -98,6 +98,16 @@ def grid_cases(ctx):
         span = r.choice([r.randint(1, 40), r.random() * 30 + 0.1, r.randint(1, 10) + r.choice([0.5, 0.25, 0.1])])
         dt = r.choice(DTS + [r.choice([1, 2, 3, 5, 7]) / r.choice([4, 8, 10, 12, 16, 20, 30, 52, 100, 365])])
         cases.append((s, s + span, dt))
+    # an end year a small fraction of a step PAST a grid point on a long span (hundreds of steps): the whole-number-of-steps guard of the sim_end setter is
+    # absolute (1e-9 steps), so one more step is needed; a relative guard (np.isclose, seeded change R6-c03-1) rounds down and the run stops before the end year
+    cases += [(2000, 2040.0003, 0.1), (2000, 2050.0005, 0.05), (2000.5, 2000.5 + 400.002 * 0.1, 0.1)]
+    for _ in range(ctx.n(30, 600)):
+        s = r.choice([2000, 2000.5, 1995, 2010.25])
+        dt = r.choice([0.1, 0.05, 0.25, 0.2, 1 / 12, 1 / 52, 0.01, 0.125])
+        k = r.randint(100, 3000)
+        f = k * r.choice([5e-6, 2e-6, 8e-6, 5e-7])
+        cases.append((s, s + (k + f) * dt, dt))
+        ctx.count("grid.just_past_a_point")
     return cases
 
 
